@@ -434,6 +434,9 @@ func rangePattern(s, e Time, S, E time.Time, instant bool) string {
 // the first overlapping one, or else the one nearest to the range.
 func decisiveInstance(f CompFilter, iv evInterval) (time.Time, time.Time) {
 	ins := iv.instances()
+	if len(ins) == 0 {
+		return iv.S, iv.E
+	}
 	rs, re := f.Start.goTime(), f.End.goTime()
 	for _, in := range ins {
 		if overlaps(rs, re, f.Start.open(), f.End.open(), in[0], in[1], iv.instant) {
